@@ -63,15 +63,7 @@ def sorted_unique(I, v, node):
             base = u.arg(0)
     if base is None:
         raise Unsupported("sorted() of an opaque value of unknown origin")
-    n = ufun("series.nunique", U(), I_)(base)
-    sv = ufun("series.sorted", U(), I_, U())
-    le = ufun("U!le", U(), U(), z3.BoolSort())
-    r, k = z3.Ints("su_r su_k")
-    ln = series_len(base)
-    I.ctx.assume(z3.And(n >= 0, z3.Implies(ln >= 1, n >= 1)))
-    I.ctx.assume(z3.ForAll([k], z3.Implies(z3.And(0 <= k, k < n), z3.Exists([r], z3.And(0 <= r, r < ln, series_val(base, r) == sv(base, k))))))
-    I.ctx.assume(z3.ForAll([r], z3.Implies(z3.And(0 <= r, r < ln), le(sv(base, 0), series_val(base, r)))))
-    return SList(n, z3.Lambda([k], sv(base, k)), TOpaque("any"))
+    return unique_sorted_axioms(I, base)
 
 
 class SSet(Sym):
@@ -131,11 +123,18 @@ def categorical_codes(I, x, levels):
     r, k = z3.Ints("cc_r cc_k")
     c = code(t, levels.arr, levels.len, r)
     present = z3.Exists([k], z3.And(0 <= k, k < levels.len, levels.arr[k] == series_val(t, r)))
-    I.ctx.assume(z3.ForAll([r], z3.Implies(z3.And(0 <= r, r < n),
-                                           z3.And(c >= -1, c < levels.len,
-                                                  (c == -1) == z3.Not(present),
-                                                  z3.Implies(c >= 0, levels.arr[c] == series_val(t, r)))),
-                           patterns=[c]))
+    body = z3.Implies(z3.And(0 <= r, r < n),
+                      z3.And(c >= -1, c < levels.len, (c == -1) == z3.Not(present),
+                             z3.Implies(c >= 0, levels.arr[c] == series_val(t, r))))
+    try:
+        ax = z3.ForAll([r], body, patterns=[c])
+    except z3.Z3Exception:          # the category list is a lambda term: let z3 choose the trigger
+        ax = z3.ForAll([r], body)
+    I.ctx.assume(ax)
+    if getattr(levels, "distinct", False):
+        # duplicate-free categories: the code of a row is THE index of its value
+        I.ctx.assume(z3.ForAll([r, k], z3.Implies(z3.And(0 <= r, r < n, 0 <= k, k < levels.len, levels.arr[k] == series_val(t, r)),
+                                                  code(t, levels.arr, levels.len, r) == k)))
     return SArr(1, n, z3.IntVal(1), lambda i, j: z3.ToReal(code(t, levels.arr, levels.len, i)), "num", False)
 
 
@@ -166,3 +165,114 @@ def external_objects():
     import warnings
     import pandas as pd
     return {pd.Categorical: m_Categorical, warnings.warn: m_warn}
+
+
+# ---------------------------------------------------------------------------------------------
+# training-time categorical machinery: np.unique / sorted, CategoricalDtype, pd.Categorical(...).astype(dtype)
+def unique_sorted_axioms(I, base):
+    """sorted(np.unique(x).tolist()): the distinct row values of x in increasing order."""
+    n = ufun("series.nunique", U(), I_)(base)
+    sv = ufun("series.sorted", U(), I_, U())
+    le = ufun("U!le", U(), U(), z3.BoolSort())
+    r, k, a, b = z3.Ints("su_r su_k su_a su_b")
+    ln = series_len(base)
+    I.ctx.assume(z3.And(n >= 0, z3.Implies(ln >= 1, n >= 1)))
+    I.ctx.assume(z3.ForAll([k], z3.Implies(z3.And(0 <= k, k < n), z3.Exists([r], z3.And(0 <= r, r < ln, series_val(base, r) == sv(base, k))))))
+    I.ctx.assume(z3.ForAll([r], z3.Implies(z3.And(0 <= r, r < ln), z3.Exists([k], z3.And(0 <= k, k < n, sv(base, k) == series_val(base, r))))))
+    I.ctx.assume(z3.ForAll([a, b], z3.Implies(z3.And(0 <= a, a < b, b < n), z3.And(sv(base, a) != sv(base, b), le(sv(base, a), sv(base, b))))))
+    I.ctx.assume(z3.ForAll([r], z3.Implies(z3.And(0 <= r, r < ln), le(sv(base, 0), series_val(base, r)))))
+    res = SList(n, z3.Lambda([k], sv(base, k)), TOpaque("any"))
+    res.distinct = True
+    return res
+
+
+def m_np_unique(I, args, kwargs, node):
+    x = args[0]
+    return SOpaque(ufun("U!m.unique", U(), U())(x.t), "any")
+
+
+class SDtype(Sym):
+    def __init__(self, categories):
+        self.categories = categories
+
+
+def m_CategoricalDtype(I, args, kwargs, node):
+    return SDtype(kwargs.get("categories"))
+
+
+class CategoricalFull(Sym):
+    """pd.Categorical over the rows of `base` with an explicit list of categories."""
+
+    def __init__(self, base, categories):
+        self.base = base                # SOpaque series
+        self.categories = categories    # SList of opaque values
+
+    def getattr(self, I, attr, node):
+        if attr == "codes":
+            return categorical_codes(I, self.base, self.categories)
+        if attr == "categories":
+            return _Tolist(self.categories)
+        from .interp import BoundMethod
+        return BoundMethod(self, attr)
+
+    def method(self, I, name, args, kwargs, node):
+        if name == "astype" and isinstance(args[0], SDtype):
+            return CategoricalFull(self.base, args[0].categories)
+        raise Unsupported(f"Categorical.{name}")
+
+    def cmpop(self, I, op, other, refl):
+        if I.ctx.spec_mode or op not in ("==", "!="):
+            return NotImplemented
+        o = other.t if isinstance(other, SOpaque) else None
+        if o is None:
+            return NotImplemented
+        t = self.base.t
+        f = (lambda i, j: series_val(t, i) == o) if op == "==" else (lambda i, j: series_val(t, i) != o)
+        return SArr(1, series_len(t), z3.IntVal(1), f, "bool", True)
+
+
+class _Tolist(Sym):
+    def __init__(self, lst):
+        self.lst = lst
+
+    def getattr(self, I, attr, node):
+        from .interp import BoundMethod
+        return BoundMethod(self, attr)
+
+    def method(self, I, name, args, kwargs, node):
+        if name == "tolist":
+            return self.lst.copy()
+        raise Unsupported(f"Index.{name}")
+
+
+def declared_categories(I, x):
+    """categories of data that already is categorical: some duplicate-free list determined by x; every row value
+    is one of them (no missing values)."""
+    n = ufun("cat.ncat", U(), I_)(x.t)
+    cv = ufun("cat.cat", U(), I_, U())
+    k, a, b, r = z3.Ints("dc_k dc_a dc_b dc_r")
+    I.ctx.assume(n >= 0)
+    I.ctx.assume(z3.ForAll([a, b], z3.Implies(z3.And(0 <= a, a < b, b < n), cv(x.t, a) != cv(x.t, b))))
+    I.ctx.assume(z3.ForAll([r], z3.Implies(z3.And(0 <= r, r < series_len(x.t)),
+                                           z3.Exists([k], z3.And(0 <= k, k < n, cv(x.t, k) == series_val(x.t, r))))))
+    res = SList(n, z3.Lambda([k], cv(x.t, k)), TOpaque("any"))
+    res.distinct = True
+    return res
+
+
+_old_m_Categorical = m_Categorical
+
+
+def m_Categorical2(I, args, kwargs, node):
+    x = args[0]
+    if "categories" in kwargs:
+        return _old_m_Categorical(I, args, kwargs, node)
+    if not isinstance(x, SOpaque):
+        raise Unsupported("pd.Categorical form")
+    return CategoricalFull(x, declared_categories(I, x))
+
+
+def external_objects_training():
+    import numpy as np
+    import pandas as pd
+    return {np.unique: m_np_unique, pd.api.types.CategoricalDtype: m_CategoricalDtype, pd.Categorical: m_Categorical2}
